@@ -26,6 +26,13 @@ EXHAUSTIVE_FIXED = [
     ([{"a": {"k": 1}, "b": {"k": 2}}], "$..k"),
     ([[[[1]], [[2]]]], "$..[0]"),
     ([[{"a": [1]}, {"a": [2]}]], "$..a"),
+    # the same node several times in a segment's input (consecutively or not): each occurrence is an application of its
+    # own, with its own choice of member order
+    ([{"a": 1, "b": 2}], "$[0,0][*]"),
+    ([{"a": 1, "b": 2}], "$[0,-1].*"),
+    ({"k": {"a": 1, "b": 2}}, "$['k','k'][?@]"),
+    ([{"a": 1, "b": 2}], "$[0,0,0].*"),
+    ({"k": {"a": 1, "b": 2}, "j": 0}, "$['k','j','k'].*"),
 ]
 
 # a descendant segment applied to SEVERAL input nodes (RFC 9535 2.1.2: the segment's result is the concatenation, in
